@@ -397,7 +397,17 @@ func checkC04(c *Ctx) *core.Result {
 			}
 			// a describable extra condition
 			d := "?"
+			cd := containsByteDesc(a, f)
 			switch {
+			case cd != "":
+				// a negated test taken on its false side is the positive test
+				neg := strings.HasPrefix(cd, "!")
+				d = strings.TrimPrefix(cd, "!")
+				if neg != !f.True {
+					d = "!(" + d + ")"
+				}
+				s.extras = append(s.extras, d)
+				continue
 			case isBin:
 				if cs, ok := ssax.ConstString(bo.Y); ok {
 					d = fmt.Sprintf("str %s %q", bo.Op, cs)
@@ -478,7 +488,7 @@ func checkC04(c *Ctx) *core.Result {
 	}
 	need("N2", "TagComment containing a back-tick ⇒ XSS", func(s site) bool {
 		for _, e := range positive(s.extras) {
-			if strings.HasPrefix(e, "IndexByte(token:true) !=") {
+			if e == "contains(token:true, '`')" {
 				return s.hasTT && s.tt == tCom
 			}
 		}
@@ -580,4 +590,67 @@ func checkC04(c *Ctx) *core.Result {
 	r.Explanation = "NECESSARY CONDITIONS ONLY — this check decides the structural parts listed here, not detection of the generated vectors. N1: five contexts ORed with the right start states on fresh state (rules X1–X3 of C13). N2: the classifier's positive-verdict sites, described by the facts that dominate them, contain: DocType unconditionally; TagNameOpen gated exactly by the tag predicate on the whole token; for every attribute type that occurs in the shipped lists a site under AttrValue ∧ attr==type (Black/Style unconditional, URL gated by the URL predicate on the whole token, Indirect gated by attribute-predicate==Black); TagComment with back-tick, IF, XML, IMPORT, ENTITY; AttrName tokens feed the attribute predicate. N3: every loop over blackTags/blacks/blackEvents runs 0..len-1 step 1. N4: every comparison with a list element or letter constant in the two name predicates uses ToUpper(ReplaceAll(x,\"\\x00\",\"\")). N-b: raw-length shortcuts only reject below the shortest listed name. N5: the scheme list holds upper-case prefixes of JAVASCRIPT, VBSCRIPT, DATA, VIEW-SOURCE and is matched through the entity-decoding matcher."
 	r.Trusted = []string{"go/ssa", "facts from edge-dominating branches", "table extraction", "rules of C13"}
 	return r
+}
+
+// containsByteDesc recognises the idioms of "the string contains byte c":
+// IndexByte/IndexRune/Index(x, c) != -1 | >= 0 | > -1 and Contains/ContainsRune/
+// ContainsAny(x, c).  It returns "contains(token:<whole token?>, 'c')", with a
+// leading "!" for the negated forms (== -1, < 0), or "" for anything else.
+func containsByteDesc(a *Anchors, f ssax.Fact) string {
+	needle := func(v ssa.Value) (byte, bool) {
+		if k, ok := ssax.ConstInt(v); ok && k >= 0 && k < 256 {
+			return byte(k), true
+		}
+		if cs, ok := ssax.ConstString(v); ok && len(cs) == 1 {
+			return cs[0], true
+		}
+		return 0, false
+	}
+	describe := func(call *ssa.Call, names ...string) (string, bool) {
+		fn := call.Common().StaticCallee()
+		if fn == nil || fn.Pkg == nil || fn.Pkg.Pkg.Path() != "strings" || len(call.Common().Args) != 2 {
+			return "", false
+		}
+		found := false
+		for _, n := range names {
+			if fn.Name() == n {
+				found = true
+			}
+		}
+		if !found {
+			return "", false
+		}
+		c, ok := needle(f.Arg(call.Common().Args[1]))
+		if !ok {
+			return "", false
+		}
+		full := tokenSliceOf(a, f.Arg(call.Common().Args[0]))
+		return fmt.Sprintf("contains(token:%v, %q)", full, rune(c)), true
+	}
+	switch x := f.Cond.(type) {
+	case *ssa.Call:
+		if d, ok := describe(x, "Contains", "ContainsRune", "ContainsAny"); ok {
+			return d
+		}
+	case *ssa.BinOp:
+		call, ok := f.Arg(x.X).(*ssa.Call)
+		if !ok {
+			return ""
+		}
+		d, ok := describe(call, "IndexByte", "IndexRune", "Index", "IndexAny")
+		if !ok {
+			return ""
+		}
+		k, ok := ssax.ConstInt(x.Y)
+		if !ok {
+			return ""
+		}
+		switch {
+		case x.Op == token.NEQ && k == -1, x.Op == token.GEQ && k == 0, x.Op == token.GTR && k == -1:
+			return d
+		case x.Op == token.EQL && k == -1, x.Op == token.LSS && k == 0, x.Op == token.LEQ && k == -1:
+			return "!" + d
+		}
+	}
+	return ""
 }
